@@ -65,7 +65,9 @@ BOUND = {
 }
 RULE = ("one case per (lattice, vertex count, first two canonical vertices, placement) bucket; inside it every simple polygon x every "
         "rotation x both directions is constructed on the real code and compared with exact rational geometry, and the selection map is "
-        "probed on the whole u lattice; non-trivial = a placed polygon all of whose vertex orders were executed, keyed by (lattice, vertices, placement)")
+        "probed on the whole u lattice; the real code of a case runs in a forked child of the pool worker (an out-of-range triangle index may "
+        "kill the process); the u values inside the rounding band of the total area are evaluated last and only up to the first failure of the case; "
+        "non-trivial = a placed polygon all of whose vertex orders were executed, keyed by (lattice, vertices, placement)")
 ASSUMPTIONS = [
     "raysect's point_triangle samples uniformly inside the selected triangle and triangulate2d(voxel.vertices) gives the triangle order used by the voxel "
     "(raysect is trusted base; the triangulation is checked to be an exact partition of the polygon)",
@@ -74,6 +76,9 @@ ASSUMPTIONS = [
     "for coordinates that are not exactly representable the boundary position is only defined up to the rounding of the documented shoelace sums: "
     "inside a band of 2^-52 (256 max|r| max|z| + 8 A) around a boundary either neighbouring triangle is accepted",
     "unbiasedness of the area-mean estimate = exact selection map + uniform sampling inside a triangle (the latter trusted, not checked)",
+    "a failure inside the top rounding band ends the exploration of that band for the case (u:top-band-planned counts the planned evaluations; they enter "
+    "`evaluations` only for cases whose band was explored completely); a sample drawn through an out-of-range index is foreign memory and could by accident "
+    "fall inside the expected triangle (8 samples per evaluation)",
     "area / centroid tolerance: rel 1e-12 plus the forward error bound 8 eps sum|terms| of the documented shoelace / Bourke sums",
 ]
 REQUIRED_CLASSES = [
@@ -94,7 +99,7 @@ U_SIG = {"0": "bottom", "2^-53": "bottom", "mid": "mid", "boundary": "at-boundar
          "below-boundary": "beside-boundary", "above-boundary": "beside-boundary", "below-top": "below-top", "1-2^-53": "top", "1-2^-52": "top"}
 EPS = 2.0 ** -52
 CONST = 2.5
-NS_BAND = 4   # samples per evaluation inside the top rounding band (an out-of-range read returns foreign memory: more points, fewer accidental hits)
+NS_BAND = 8   # samples per evaluation inside the top rounding band (an out-of-range read returns foreign memory: more points, fewer accidental hits)
 
 
 def cases(tier):
@@ -132,6 +137,15 @@ def setup_worker(tier):
     if not getattr(vx, "_VERIF_ON", False) or not hasattr(vx, "_verif_uniform"):
         raise RuntimeError("hook H1 missing or CHERAB_VERIF != 1: cherab.tools.inversions.voxels._verif_uniform is inert")
     _mods.update(np=np, vx=vx, tri=triangulate2d, Point2D=Point2D, seed=seed, Constant3D=Constant3D)
+    # the hook must be live: the harness callable is consulted once per sample of a multi-triangle voxel
+    calls = []
+    vx._verif_uniform = lambda: calls.append(1) or 0.25
+    try:
+        vx.AxisymmetricVoxel([(1.0, 0.0), (2.0, 0.0), (2.0, 1.0), (1.0, 1.0)]).emissivity_from_function(lambda r, p, z: 1.0, 3)
+    finally:
+        vx._verif_uniform = None
+    if len(calls) != 3:
+        raise RuntimeError("hook H1 is inert: _verif_uniform was consulted %d times for 3 samples" % len(calls))
 
 
 # ------------------------------------------------------------------------------------------ reference helpers
@@ -448,6 +462,7 @@ def run_case(case):
     if died is not None:
         status, sig, what, want = died
         extra.V(sig, what + ": process death (wait status %s)" % status, want, OUTSIDE if sig.endswith("sample-outside-selected-triangle") else "process death")
+        extra.nev = extra.trans = 1
         if not parts:
             # died before the main phase was complete: redo the case without the hooked selection-map evaluations
             extra.classes["u:not-evaluated-after-process-death"] += 1
@@ -637,25 +652,37 @@ def _body(case, hooked, send, progress):
             V("ToroidalVoxelGrid.emissivities_from_function:constant-not-reproduced", desc, [CONST] * gl, em)
         g = g % 4 + 1
 
+    planned = sum(len(x[-1]) for x in late)
+    if planned:
+        classes["u:in-top-band"] += 1
+        classes["u:top-band-planned"] += planned
     send(acc.dump())
 
     # ---- the u values within the rounding band of the total area (rounded coordinates only): a selection past the last triangle
     # cannot be excluded there, so they are evaluated last, after the main result has been shipped, and only up to the first
     # failure (every failure in this zone carries the same signature; a process death ends the child anyway).
+    # Counting: what an out-of-range read returns is foreign memory, so *which* band evaluation is the first to fail can differ between
+    # runs; the counters therefore only record deterministic facts: the number of planned band evaluations, and the executed ones only
+    # when the whole band was explored without a failure.
     acc = _Acc()
-    stop = False
+    scratch = _Acc()
+    done = 0
     for voxel, desc, ref, cum, tris, stored, areas, banded in late:
         tol_pt = 1e-9 * max(1.0, ref.scale)
         for lab, u in banded:
-            if stop:
-                acc.classes["u:not-evaluated-after-first-failure"] += 1
-                continue
-            acc.classes["u:" + lab] += 1
-            acc.classes["u:in-top-band"] += 1
-            nv = len(acc.viol)
-            _mods["seed"](1000003 + acc.nev)
-            _judge(acc, progress, cclass, desc, lab, "top", u, _accepted(ref, cum, u), voxel, tris, stored, areas, tol_pt, NS_BAND)
-            stop = len(acc.viol) > nv
+            _mods["seed"](1000003 + done)
+            _judge(scratch, progress, cclass, desc, lab, "top", u, _accepted(ref, cum, u), voxel, tris, stored, areas, tol_pt, NS_BAND)
+            done += 1
+            if scratch.viol:
+                break
+        if scratch.viol:
+            break
+    acc.viol, acc.sigs = scratch.viol, scratch.sigs
+    if scratch.viol:
+        acc.nev = acc.trans = 1
+    else:
+        acc.nev = acc.trans = done
+        acc.classes["u:top-band-explored-completely"] += 1 if planned else 0
     send(acc.dump())
 
 
